@@ -147,6 +147,8 @@ impl Loop {
         // println!("step: {:?} => {:?}", self.loop_parameters[cur_parameter], parameters);
         let res = exe.lock().unwrap().execute_command(buf, caret, self.command, &parameters, &self.parsed_string);
         // todo: correct delay?
+        #[cfg(icy_engine_verif)]
+        crate::verif::on_block(200 * self.delay as u64);
         std::thread::sleep(Duration::from_millis(200 * self.delay as u64));
         if self.from < self.to {
             self.i += self.step;
